@@ -3,6 +3,7 @@
 //!   {op:"extract", file}                         -> {r:"ok", jumbf:hex}     manifest store of a fixture
 //!   {op:"build", def, settings?, src, format, alg?, ingredient?} -> {r:"ok", jumbf:hex}   Builder::sign, then extract
 //!   {op:"box", data:hex}     BoxReader::read_super_box on the bytes; canonical tree; write_box; parse+write again
+//!   {op:"write", tree}      boxes built with the SDK's constructors, BMFFBox::write_box -> {r:"ok", jumbf:hex}
 //!   {op:"store", data:hex}   Store::from_jumbf; to_jumbf_internal; again
 use std::io::Cursor;
 use std::sync::mpsc;
@@ -226,8 +227,59 @@ fn op_build(case: &Value) -> Value {
     }
 }
 
+/// build a box with the SDK's own constructors (what the SDK can produce: toggles 3, or 19 with a salt)
+fn build_box(v: &Value) -> Result<Box<dyn BMFFBox>, String> {
+    let d = |k: &str| hexd(&v[k]);
+    Ok(match v["k"].as_str().unwrap_or("") {
+        "super" => {
+            let label = String::from_utf8(d("label")).map_err(|_| "label not utf8".to_string())?;
+            let uuid = v["uuid"].as_str().unwrap_or("").to_string();
+            let mut desc = JUMBFDescriptionBox::new(&label, Some(&uuid));
+            if !v["salt"].is_null() {
+                desc.set_salt(d("salt")).map_err(|e| format!("{e:?}"))?;
+            }
+            let mut sb = JUMBFSuperBox::from(desc);
+            for c in v["c"].as_array().map(|a| a.as_slice()).unwrap_or(&[]) {
+                sb.add_data_box(build_box(c)?);
+            }
+            Box::new(sb)
+        }
+        "json" => Box::new(JUMBFJSONContentBox::new(d("d"))),
+        "cbor" => Box::new(JUMBFCBORContentBox::new(d("d"))),
+        "free" => Box::new(JUMBFPaddingContentBox::new_with_vec(d("d"))),
+        "jp2c" => Box::new(JUMBFCodestreamContentBox::new(d("d"))),
+        "brob" => Box::new(JUMBFBrotliContentBox::new(d("d"))),
+        "bidb" => Box::new(JUMBFEmbeddedFileContentBox::new(d("d"))),
+        "uuid" => {
+            let u: [u8; 16] = d("u").try_into().map_err(|_| "uuid length".to_string())?;
+            Box::new(JUMBFUUIDContentBox::new(&u, d("d")))
+        }
+        "bfdb" => {
+            let mt = String::from_utf8(d("mt")).map_err(|_| "mt not utf8".to_string())?;
+            let fname = if v["fn"].is_null() { None } else { Some("f".to_string()) };
+            Box::new(JUMBFEmbeddedFileDescriptionBox::new(mt, fname))
+        }
+        other => return Err(format!("kind {other}")),
+    })
+}
+
+/// {op:"write", tree} -> bytes written by BMFFBox::write_box of boxes made with the SDK's constructors
+fn op_write(case: &Value) -> Value {
+    match build_box(&case["tree"]) {
+        Ok(b) => {
+            let mut out = Vec::new();
+            match b.write_box(&mut out) {
+                Ok(()) => json!({"r": "ok", "jumbf": hexe(&out)}),
+                Err(e) => json!({"r": "err", "kind": format!("WriteError:{e}")}),
+            }
+        }
+        Err(e) => json!({"r": "err", "kind": e}),
+    }
+}
+
 pub fn run(case: &Value) -> Value {
     match case["op"].as_str().unwrap_or("") {
+        "write" => op_write(case),
         "box" => op_box(case),
         "store" => op_store(case),
         "extract" => op_extract(case),
